@@ -16,9 +16,14 @@ func main() {
 	tier := flag.String("tier", "", "quick|thorough (default $VERIF_TIER or quick)")
 	dump := flag.String("dump", "", "debug: 'cfg:<pkg>:<func>' or 'sql:<pkg>' or 'funcs:<pkg>'")
 	explain := flag.String("explain", "", "print a replay file in readable form")
+	sweepAll := flag.String("sweepall", "", "development aid: package prefix (e.g. store.) whose analysed functions are mutated and run against all properties")
+	sweepMax := flag.Int("sweepmax", 0, "cap on the number of variants of -sweepall")
 	flag.Parse()
 	if *dump != "" {
 		os.Exit(kit.Dump(*dump))
+	}
+	if *sweepAll != "" {
+		os.Exit(kit.SweepAll(*sweepAll, *sweepMax))
 	}
 	if *explain != "" {
 		os.Exit(kit.Explain(*explain))
